@@ -105,7 +105,7 @@ def fire(seed):
     own = seed.split("-")[0]
     for pid, rc, out in res:
         if rc != 0:
-            v = len(re.findall(r"^VIOLATION", out, re.M))
+            v = len(re.findall(r"^violated:", out, re.M))
             u = len(re.findall(r"^UNDECIDED", out, re.M))
             fired.append("%s(%dv/%du)" % (pid, v, u))
         if pid == own:
@@ -150,7 +150,7 @@ def main():
             "confirmed": c,
             "ran": ["tools/seedcheck.py %s (scratch worktree: git apply, go build, go test ./..., go test -run TestSeeded with and without the change; then git -C /repo apply, bin/digcheck for C01..C20, git -C /repo checkout -- .)" % s],
             "checks_fired_on_repo_with_patch": fired,
-            "own_property_check_fired": any(f.startswith(own + "(") and "(0v" not in f for f in fired),
+            "own_property_check_fired": len(allv) > 0,
             "first_report": first,
             "rules_reporting_for_own_property": allv,
         }
